@@ -74,7 +74,7 @@ int mon_state_violation(char *what, size_t n)
 }
 
 /* ----------------------------------------------------------- leak monitor */
-#define MAX_SECRETS 160
+#define MAX_SECRETS 320
 #define MAX_SECRET_LEN 96
 typedef struct Secret { char kind[24]; uint8_t v[MAX_SECRET_LEN]; size_t len; } Secret;
 static Secret g_sec[MAX_SECRETS];
@@ -415,6 +415,21 @@ void leak_deep_collect(const Plan *p)
 			if (n < 16) continue;
 			payload_fill(d, snd->recmap[k].start, pl, n);
 			leak_add_secret("decrypted_plaintext", pl, n);
+		}
+	}
+	/* ... and, whatever the sampling, the records next to each fault of the plan, head and tail */
+	for (int i = 0; i < p->nfaults; i++) {
+		const Fault *f = &p->faults[i];
+		if (f->dir < 0 || f->dir > 1) continue;
+		Endpoint *snd = &g_ep[f->dir == DIR_C2S ? 0 : 1];
+		for (int k = 0; k < snd->nrecmap; k++) {
+			if (snd->recmap[k].rec < f->rec - 2 || snd->recmap[k].rec > f->rec + 1) continue;
+			uint8_t pl[48];
+			size_t len = snd->recmap[k].len, n = len >= 48 ? 48 : len;
+			if (n < 16) continue;
+			payload_fill(f->dir, snd->recmap[k].start, pl, n);
+			leak_add_secret("decrypted_plaintext", pl, n);
+			if (len >= 96) { payload_fill(f->dir, snd->recmap[k].start + len - 48, pl, 48); leak_add_secret("decrypted_plaintext", pl, 48); }
 		}
 	}
 	/* application plaintext an endpoint received */
